@@ -1,0 +1,30 @@
+//go:build verif
+
+package lastgersync
+
+import (
+	"database/sql"
+
+	"github.com/agglayer/aggkit/db"
+	"github.com/agglayer/aggkit/db/compatibility"
+	"github.com/agglayer/aggkit/lastgersync/migrations"
+	"github.com/agglayer/aggkit/log"
+	"github.com/agglayer/aggkit/sync"
+)
+
+// VerifNewWithDB is VerifNew on a caller-supplied database handle (opened by the harness through
+// a fault-injecting database/sql driver on the same SQLite file).
+func VerifNewWithDB(dbPath string, database *sql.DB) (*LastGERSync, error) {
+	if err := migrations.RunMigrations(dbPath); err != nil {
+		return nil, err
+	}
+	p := &processor{
+		database: database,
+		log:      log.WithFields("module", reorgDetectorID),
+		CompatibilityDataStorager: compatibility.NewKeyValueToCompatibilityStorage[sync.RuntimeData](
+			db.NewKeyValueStorage(database),
+			reorgDetectorID,
+		),
+	}
+	return &LastGERSync{processor: p}, nil
+}
